@@ -363,6 +363,46 @@ func judgeC09(c c09Case) (string, string) {
 				}
 			}
 		}
+		// a file gets its second name while the walk is under way: the consumer, handed the file, links it into a
+		// directory that is reported later. The later name shares an inode with an entry already reported, so it
+		// is a link naming it. (Last part of the case: it changes directory times.)
+		if len(snap) <= 12 {
+			for _, f := range snap {
+				if f.Kind != fsmodel.File || f.HL != 0 {
+					continue
+				}
+				for _, d := range snap {
+					if d.Kind != fsmodel.Dir || fsmodel.ComparePaths(d.Path, f.Path) < 0 {
+						continue
+					}
+					added := filepath.Join(dir, d.Path, "zz.late")
+					var lerr error
+					got, err := collect(func(fn gofs.WalkDirFunc) error {
+						return fs.Walk(ctx, "/", func(p string, e gofs.DirEntry, err error) error {
+							if rerr := fn(p, e, err); rerr != nil {
+								return rerr
+							}
+							if p == f.Path {
+								lerr = os.Link(filepath.Join(dir, f.Path), added)
+							}
+							return nil
+						})
+					})
+					after, serr := fsmodel.Snapshot(dir)
+					os.Remove(added)
+					if lerr != nil || serr != nil {
+						return "infra", fmt.Sprintf("late link: %v %v", lerr, serr)
+					}
+					what := fmt.Sprintf("FS.Walk during which %q got a second name %q", f.Path, d.Path+"/zz.late")
+					if err != nil {
+						return "walk-failed", what + ": " + err.Error()
+					}
+					if k, m := compareWalk(what, got, memfs.Stats(after)); k != "" {
+						return "late-link-" + k, m
+					}
+				}
+			}
+		}
 		return "", ""
 	}
 	// composite FS of named sub-roots, each over the same directory
